@@ -147,9 +147,25 @@ func (e *Engine) AddSingleAssertionConflict(trigger annotation.FullTrigger) {
 	position := e.pass.Fset.PositionFor(trigger.Consumer.Expr.Pos(), false /* adjusted */)
 	// Try to trim the build system prefix (i.e., the current working directory) if present.
 	position.Filename = tokenhelper.RelToCwd(position.Filename)
+
+	// Record the declaration position of the object that the nil value is read from (if any), such
+	// that conflicts on distinct objects that merely share a name are never grouped together. A
+	// missing guard replaces the original producer, which is the one that knows the object.
+	var sourcePosition token.Position
+	producerAnnotation := trigger.Producer.Annotation
+	if g, ok := producerAnnotation.(*annotation.GuardMissing); ok && g.OldAnnotation != nil {
+		producerAnnotation = g.OldAnnotation
+	}
+	if site := producerAnnotation.UnderlyingSite(); site != nil {
+		if obj := site.Object(); obj != nil {
+			sourcePosition = e.pass.Fset.Position(obj.Pos())
+		}
+	}
+
 	e.conflicts = append(e.conflicts, conflict{
-		position: position,
-		flow:     flow,
+		position:       position,
+		flow:           flow,
+		sourcePosition: sourcePosition,
 	})
 }
 
